@@ -274,15 +274,89 @@ fn check_triple(t: &Triple) -> CaseReport {
     rep
 }
 
+
+// ------------------------------------------------------------------------------------------------------
+// The same laws over quantities on the offset temperature scales (°C, °F): the unit vocabulary the
+// property quantifies over includes them.  Kept apart from the proportional triples because two laws cannot
+// be stated across DIFFERENT scales: a sum converts its right operand by the affine formula (C09 demands
+// that), so `3 °C + 4 K` and `4 K + 3 °C` are different temperatures by construction, and distributivity
+// over such a sum fails for the same reason.  Additive laws therefore use one scale spelling per instance;
+// the multiplicative laws mix scales and other units freely.
+
+#[derive(Clone, Debug)]
+pub struct ScaleTriple {
+    /// (literal text, unit text) of a, b, c: quantities on one scale spelling
+    pub scale: String,
+    pub xs: [String; 3],
+    /// free operands (literal, unit) on any scale or any other unit
+    pub d: (String, String),
+    pub e: (String, String),
+}
+
+fn scale_triple() -> impl Strategy<Value = ScaleTriple> {
+    let scale = prop_oneof![Just("°C"), Just("celsius"), Just("°F"), Just("fahrenheit"), Just("m°C"), Just("k°F")];
+    let free_unit = prop_oneof![
+        3 => prop_oneof![Just("°C"), Just("°F"), Just("K"), Just("celsius"), Just("fahrenheit"), Just("mK")].prop_map(|s| s.to_string()),
+        3 => prop_oneof![Just("m"), Just("s"), Just("kg"), Just("J"), Just("W"), Just("ft"), Just("min"), Just("km"), Just("btu"), Just("N")].prop_map(|s| s.to_string()),
+        2 => prop_oneof![Just("J/K"), Just("J/°C"), Just("btu/°F"), Just("W/m*K"), Just("m*°C"), Just("°C/s"), Just("°F^2"), Just("1/°C"), Just("K/°F")].prop_map(|s| s.to_string()),
+    ];
+    let l = || gen::small_lit().prop_map(|l| l.text).prop_filter("no percent", |t| !t.ends_with('%'));
+    (scale, l(), l(), l(), (l(), free_unit.clone()), (l(), free_unit)).prop_map(|(scale, x0, x1, x2, d, e)| ScaleTriple { scale: scale.to_string(), xs: [x0, x1, x2], d, e })
+}
+
+fn scale_laws(t: &ScaleTriple) -> Vec<LawCase> {
+    let q = |x: &str, u: &str| format!("({} {})", x, u);
+    let (a, b, c) = (q(&t.xs[0], &t.scale), q(&t.xs[1], &t.scale), q(&t.xs[2], &t.scale));
+    let (d, e) = (q(&t.d.0, &t.d.1), q(&t.e.0, &t.e.1));
+    let is_zero = |x: &str| crate::decimal::parse_decimal(x).map(|v| v.is_zero()).unwrap_or(true);
+    let mut v: Vec<(&str, String, String, &str)> = vec![
+        ("scale:a+b=b+a", format!("{} + {}", a, b), format!("{} + {}", b, a), "equal"),
+        ("scale:(a+b)+c=a+(b+c)", format!("({} + {}) + {}", a, b, c), format!("{} + ({} + {})", a, b, c), "equal"),
+        ("scale:a-a=0", format!("{} - {}", a, a), a.clone(), "zero-with-dim-of-rhs"),
+        ("scale:a*d=d*a", format!("{} * {}", a, d), format!("{} * {}", d, a), "equal"),
+        ("scale:d*e=e*d", format!("{} * {}", d, e), format!("{} * {}", e, d), "equal"),
+        ("scale:(a*d)*e=a*(d*e)", format!("({} * {}) * {}", a, d, e), format!("{} * ({} * {})", a, d, e), "equal"),
+        ("scale:(d*a)*b=d*(a*b)", format!("({} * {}) * {}", d, a, b), format!("{} * ({} * {})", d, a, b), "equal"),
+        ("scale:d*(b+c)=d*b+d*c", format!("{} * ({} + {})", d, b, c), format!("{} * {} + {} * {}", d, b, d, c), "equal"),
+        ("scale:a*(b+c)=a*b+a*c", format!("{} * ({} + {})", a, b, c), format!("{} * {} + {} * {}", a, b, a, c), "equal"),
+        // C04's clause over the same operands: an integer power is repeated multiplication
+        ("scale:a^2=a*a", format!("{} ^ 2", a), format!("{} * {}", a, a), "equal"),
+        ("scale:a^3=a*a*a", format!("{} ^ 3", a), format!("{} * {} * {}", a, a, a), "equal"),
+    ];
+    if !is_zero(&t.xs[0]) {
+        v.push(("scale:a/a=1", format!("{} / {}", a, a), "1".to_string(), "dimensionless-one"));
+        v.push(("scale:(d*a)/a=d", format!("({} * {}) / {}", d, a, a), d.clone(), "equal"));
+    }
+    v.into_iter().map(|(law, lhs, rhs, rel)| LawCase { law: law.to_string(), lhs, rhs, relation: rel.to_string(), nontrivial: true, classes: vec!["offset-scale-operands".to_string()] }).collect()
+}
+
+fn check_scale_triple(t: &ScaleTriple) -> CaseReport {
+    let ls = scale_laws(t);
+    let mut first: Option<CaseReport> = None;
+    for l in &ls {
+        let rep = check_law(l);
+        if let crate::runner::Verdict::Fail { .. } = rep.verdict {
+            return rep;
+        }
+        if first.is_none() {
+            first = Some(rep);
+        }
+    }
+    let mut rep = first.unwrap();
+    rep.classes.retain(|c| !c.starts_with("law:"));
+    rep
+}
+
 pub fn run_check(ctx: &Ctx) {
-    ctx.set_rule("triples (a, b, c) plus a free operand d drawn from literals over the whole proportional unit vocabulary and from every typable fact phrase of the shipped database (decoded by the harness), b and c spelled for a's dimension; seven law instances per triple (a+b=b+a, a*d=d*a, both associativities, distributivity, a-a=0 with a's dimension, a/a=1), both sides evaluated by the tool and compared after SI normalisation through the Compound mirror; non-trivial = operands with different unit spellings or at least one fact; distinct by the commutativity query pair");
-    ctx.assume("offset scales excluded; both sides of a law must be values; fact dimensions are read from the decoded data files");
+    ctx.set_rule("triples (a, b, c) plus a free operand d drawn from literals over the whole proportional unit vocabulary and from every typable fact phrase of the shipped database (decoded by the harness), b and c spelled for a's dimension; seven law instances per triple (a+b=b+a, a*d=d*a, both associativities, distributivity, a-a=0 with a's dimension, a/a=1), both sides evaluated by the tool and compared after SI normalisation through the Compound mirror; the same laws over quantities on the offset scales (°C, °F, prefixed): a, b, c on one scale spelling, free operands d, e on any scale or any other unit (also compounds holding a scale: J/°C, m*°C, °F^2): commutativity and associativity of products, a-a, a/a, (d*a)/a=d, both distributivities, a^2=a*a and a^3=a*a*a, degrees compared as intervals; non-trivial = operands with different unit spellings or at least one fact or an offset scale; distinct by the commutativity query pair");
+    ctx.assume("both sides of a law must be values; fact dimensions are read from the decoded data files; over the offset scales (°C, °F) the additive laws and distributivity are instantiated with one scale spelling per instance, because a sum across two scales converts its right operand by the affine formula (C09) and is not commutative by construction");
     let corpus: Vec<(String, LawCase)> = load_corpus("C13");
     let cases: Vec<LawCase> = corpus.into_iter().map(|c| c.1).collect();
     ctx.run_list("corpus", &cases, check_law, |c| to_json(c));
     ctx.put("typable_fact_phrases", json!(pool().all.len()));
     let n = ctx.tier.pick(60_000u64, 1_000_000);
     ctx.run_gen("triples", triple, n, check_triple, |t| json!(laws(t)));
+    ctx.run_gen("offset-scale-triples", scale_triple, n / 6, check_scale_triple, |t| json!(scale_laws(t)));
     if ctx.tier == crate::runner::Tier::Thorough {
         // every fact once as `a`, with a literal partner
         let p = pool();
